@@ -349,28 +349,31 @@ def cos_vector(x: Interval):  # vectorised version of cos()
     a = cos_l.copy()
     b = cos_h.copy()
 
+    # The masks overlap (width >= 2 pi, reduced endpoint on a multiple of pi) and a later
+    # assignment overwrites an earlier one: they are applied in the reverse of the order in
+    # which cos() tests them, so that element by element the first matching case of cos() wins.
+    # [cos_h, cos_l]
+    case5 = (yl <= yh) & contain(domain1, yl) & contain(domain1, yh)
+    a[case5] = cos_h[case5]
+    b[case5] = cos_l[case5]
+    # [-1, max(cos_l, cos_h)]
+    case4 = contain(domain1, yl) & contain(domain2, yh)
+    a[case4] = -1
+    b[case4] = max(cos_l[case4], cos_h[case4])
+    # [min(cos_l, cos_h), 1]
+    case3 = contain(domain2, yl) & contain(domain1, yh)
+    a[case3] = min(cos_l[case3], cos_h[case3])
+    b[case3] = 1
+    # [cos_l, cos_h]
+    case2 = (yl <= yh) & contain(domain2, yl) & contain(domain2, yh)
+    a[case2] = cos_l[case2]
+    b[case2] = cos_h[case2]
     # [-1,1]
     case1a = (yh < yl) & contain(domain1, yl) & contain(domain1, yh)
     case1b = (yh < yl) & contain(domain2, yl) & contain(domain2, yh)
     case1 = case0 | case1a | case1b
     a[case1] = -1
     b[case1] = 1
-    # [cos_l, cos_h]
-    # case2 = (yl<=yh) & contain(domain2,yl) & contain(domain2,yh)
-    # a[case2] = cos_l[case2]
-    # b[case2] = cos_h[case2]
-    # [min(cos_l, cos_h), 1]
-    case3 = contain(domain2, yl) & contain(domain1, yh)
-    a[case3] = min(cos_l[case3], cos_h[case3])
-    b[case3] = 1
-    # [-1, max(cos_l, cos_h)]
-    case4 = contain(domain1, yl) & contain(domain2, yh)
-    a[case4] = -1
-    b[case4] = max(cos_l[case4], cos_h[case4])
-    # [cos_h, cos_l]
-    case5 = (yl <= yh) & contain(domain1, yl) & contain(domain1, yh)
-    a[case5] = cos_h[case5]
-    b[case5] = cos_l[case5]
     return Interval(lo=a, hi=b)
 
 
